@@ -84,7 +84,9 @@ var poolJPath = []string{"a", "b.#", "b.2.c", "b.#.c", "e.f", `b.#(c=="d")`, `b.
 var mathNums = []string{"0", "1", "-1", "2", "2.5", "1e308", "0x10", "0b101", "007", "0.0", "9223372036854775807", "9223372036854775808", "1e-320", ".5", "5.", "63", "64", "65", "-64"}
 var mathVars = []string{"[0]", "[1]", "[2]", "[3]", "[5]", "[-1]", "[name]", "[k]", "[]", "x", "name", "k", "[n]", "n", "[ 0 ]", "[0", "0]", "[[0]]", "pi", "e"}
 var mathOps = []string{"+", "-", "*", "/", "^", "%", "<<", ">>", "&", "|", "==", "<=", ">=", "<", ">", "&&", "||"}
-var mathUn = []string{"-", "!", "abs", "sin", "asin", "cos", "acos", "tan", "atan", "sqrt", "floor", "ceil", "round", "exp", "exp2", "log", "log10", "log2"}
+var mathUn = []string{"-", "!", "abs", "sin", "asin", "cos", "acos", "tan", "atan", "sqrt", "floor", "ceil", "round", "exp", "exp2", "log", "log10", "log2",
+	// other spellings of function-like words in front of a group: whatever they mean (a variable, an unknown name), they must not crash
+	"ABS", "Sqrt", "LOG10", "Floor", "nosuchfn", "abs2", "é", "x"}
 
 // alphabet of raw / mutated templates
 var rawAlphabet = []string{"{", "}", "{", "}", `"`, `\`, " ", " ", "\t", "\n", "a", "b", "x", "0", "1", "9", "-", "@", "$", "!", "%", "[", "]", "(", ")", ".", ",", "é", "\xff", "\x00",
